@@ -31,7 +31,7 @@ VK = ["scalar", "flat", "flatlist", "colvec", "collist", "ragged", "bad_same_tot
 FLOOR_TAGS = ["vk:" + v for v in VK] + ["mask:scalar", "mask:flat", "r:int", "r:slice+1", "r:slice+k", "r:slice-", "r:list", "r:mask", "r:ell", "rows-repeat",
                                         "recv:fresh", "recv:lazyrows", "recv:lazycols+2", "recv:lazycols-1", "recv:lazychain", "recv:deepcopy", "recv:pickle", "values:hostile-floats", "valdtype:other", "valdtype:exotic", "ellipsis-padded", "seq", "seq:50+", "vk:selfsel", "overlap", "value-is-receiver",
                                         "c:none", "c:int+", "c:int-", "c:slice+1", "c:slice+k", "c:slice-", "sel-has-empty-row", "e-first", "e-last", "e-mid", "allempty", "norows"]
-FLOOR_MONITORS = ["c03:footprint", "c03:must-refuse", "c03:bystander", "c03:alias", "c03:parent-untouched", "c03:pairs", "c03:selfflat"]
+FLOOR_MONITORS = ["c03:footprint", "c03:must-refuse", "c03:bystander", "c03:alias", "c03:parent-untouched", "c03:pairs", "c03:selfflat", "c03:tablevalue"]
 FP_STRICT = True       # a floating-point event inside the library that the dense computation does not have is a violation (shard.FpMonitor)
 N_RANDOM = {"quick": 24000, "thorough": 300000}
 BASE = 100000
@@ -271,6 +271,58 @@ def run_selfflat(case):
     return held(tags, len(lens) >= 2 and k >= 2)
 
 
+def run_tablevalue(case):
+    """ra[index] = a value shaped like the selection in numpy's terms: a 2-d table (C- or Fortran-ordered) for a selection of equally long rows, a flat
+    array or a plain python list with one entry per addressed cell for any selection -- cell by cell, in reading order"""
+    lens, rs, cs, has_cs, form = case["lens"], case["rs"], case["cs"], case["has_cs"], case["form"]
+    recv = case.get("recv", "fresh")
+    tags = ["vk:" + form, model.describe_selector(rs), model.describe_cols(cs, has_cs), "recv:" + recv] + gen.empty_placement(lens)
+    try:
+        kind, cells = model.select_cells(lens, rs, cs, has_cs)
+    except model.Refused:
+        return undefined("index not accepted for reading", tags)
+    flatcells = model.flat_cells(kind, cells)
+    k = len(flatcells)
+    if kind != "RA" or len(set(flatcells)) != k or k == 0:
+        return undefined("not a ragged selection with cells", tags)
+    rl_ = [len(r) for r in cells]
+    newv = [700001 + 7 * i for i in range(k)]
+    if form in ("table-C", "table-F"):
+        if len(set(rl_)) != 1 or rl_[0] == 0 or len(rl_) < 2 or rl_[0] < 2:
+            return undefined("rows of the selection are not equally long", tags)
+        t_ = np.array(newv, dtype=np.int64).reshape(len(rl_), rl_[0])
+        value = np.asfortranarray(t_) if form == "table-F" else t_
+    elif form == "pylist":
+        value = list(newv)
+        if k == len(rl_) and not all(l == 1 for l in rl_):
+            tags.append("pylist:as-many-cells-as-rows")
+    else:
+        value = np.array(newv, dtype=np.int64)
+    pyrows = gen.id_rows(lens)
+    flat = np.array([v for r in pyrows for v in r], dtype=np.int64)
+    ra, parent = c02.build_receiver(recv, flat, lens)
+    exp = [list(r) for r in pyrows]
+    for n_, (i, j) in enumerate(flatcells):
+        exp[i][j] = newv[n_]
+    CTX.tick("c03:tablevalue")
+    a = attempt(lambda: ra.__setitem__(model.make_index(rs, cs, has_cs), value))
+    desc = "ra[%s] = %s %s on rows of lengths %s" % (short(model.make_index(rs, cs, has_cs), 80), form, short(value, 80), short(lens, 80))
+    if not a.ok:
+        return violated("%s raised %s: %s" % (desc, type(a.exc).__name__, a.exc), tags, got=repr(a))
+    got = peek(ra)
+    if got != exp:
+        return violated("%s leaves %s, cell by cell it must be %s" % (desc, short(got, 200), short(exp, 200)), tags, got=got, expected=exp)
+    return held(tags, len(lens) >= 2 and k >= 2)
+
+
+def tablevalue_cases():
+    for lens in ([3, 3, 3], [2, 4, 2, 4], [2, 0, 1], [1, 2, 0, 1], [3, 3]):
+        for rs, cs, h in [(Ellipsis, None, False), (slice(0, 2), None, False), ([2, 0], None, False), (slice(None), slice(0, 2), True), (slice(None, None, -1), None, False), (slice(None), slice(None, None, -1), True)]:
+            for form in ("table-C", "table-F", "pylist", "flat"):
+                for recv in ("fresh", "lazyrows"):
+                    yield {"kind": "tablevalue", "lens": lens, "rs": rs, "cs": cs, "has_cs": h, "form": form, "recv": recv}
+
+
 def selfflat_cases():
     for lens in ([2, 1, 3, 0, 1], [3, 3, 3], [0, 4, 0, 2], [1, 1, 1, 1]):
         tot = sum(lens)
@@ -301,6 +353,8 @@ def run(case):
         return run_pairs(case)
     if case.get("kind") == "selfflat":
         return run_selfflat(case)
+    if case.get("kind") == "tablevalue":
+        return run_tablevalue(case)
     if "seq" in case:
         return run_seq(case)
     if "mask" in case:
@@ -636,6 +690,8 @@ def directed():
         yield c
     for c in selfflat_cases():
         yield c
+    for c in tablevalue_cases():
+        yield c
     # one scalar through row lists that name a row more than once (ascending, descending, as lists and as arrays, also with a column selector)
     import itertools
     for lens_ in ([2, 3, 3, 1, 2], [1, 1, 1, 1], [4, 2, 2, 4, 0, 4]):
@@ -829,6 +885,6 @@ def random_case(rng, tier, lens=None, plain=False):
 def classify(case, res):
     if "seq" in case:
         return None
-    if "mask" in case or case.get("kind") in ("pairs", "selfflat"):
+    if "mask" in case or case.get("kind") in ("pairs", "selfflat", "tablevalue"):
         return None
     return c02.classify(case, res)
